@@ -268,6 +268,17 @@ impl Check for C07SortBy {
             let what = if g2 != e2 { "is not a permutation of the sortable rows" } else { "is in the wrong order" };
             return CaseResult::Fail(format!("--sort-by output {}: expected ids {:?} got {:?}", what, exp, got));
         }
+        // the same order when the sorted rows are collected by --merge (one case in three)
+        if case.recs.len() % 3 == 1 {
+            let mut a2 = args.clone();
+            a2.push("--merge".into());
+            a2.push("--style=consise".into());
+            let m = run(&a2, &input);
+            let ids: Option<Vec<u32>> = split_rows(&m.stdout, b"\n").ok().and_then(|r| r.first().map(|x| x.0.clone())).and_then(|v| if let RVal::Arr(a) = v { Some(a.iter().filter_map(|x| if let Some(RVal::Int(i)) = x.get("i") { Some(*i as u32) } else { None }).collect()) } else { None });
+            if !m.res.is_ok() || ids.as_ref() != Some(&exp) {
+                return CaseResult::Fail(format!("--sort-by with --merge: the array holds ids {:?}, expected {:?} (args {:?})", ids, exp, a2));
+            }
+        }
         CaseResult::Pass(info)
     }
 }
